@@ -267,7 +267,34 @@ def shrink(case, oracle, raised=False, prop_level=False):
     return {"p": cur["p"], "W": cur["W"], "values": [cur["values"][v] for v in used], "ops": [ren[v] for v in cur["ops"]]}
 
 
-def check_small(run, cases):
+PROBE_CASES = [
+    {"p": 4, "W": 3, "values": [["s", "%08x" % (i * 2654435761 % 2 ** 32)] for i in range(12)],
+     "ops": [0, 1, 0, 2, 2, 0, 3, 3, 1, 4, 5, 4, 0, 6, 7, 8, 8, 9, 10, 11, 3]},
+    {"p": 3, "W": 4, "values": [["s", "a"], ["s", "b"], ["b", "61"], ["s", "17"], ["s", "c0ffee00"], ["s", "x"]],
+     "ops": [0, 1, 2, 3, 0, 3, 4, 4, 0, 2, 5, 5]},
+    {"p": 6, "W": 32, "values": [["s", str(i)] for i in range(50)], "ops": list(range(32)) + [5, 31, 32, 32, 0] + list(range(33, 50)) + [7]},
+]
+
+
+def probe_device():
+    """Is the small-sketch device (setting p / m / warmup_size / width on a fresh instance) usable on this tree?
+    Returns (verdict, detail): "ok" | "suspect" (the poked instance raises or disagrees with the mirror under both oracles
+    although an unpoked default instance passes a short exactness history)."""
+    out = vlib.run_impl("impl_c14.py", {"cases": PROBE_CASES, "default_probe": True})
+    if out.get("default_probe") is not None:
+        return "ok", "default instance fails its own short history (%s): the tree is judged as it is" % out["default_probe"]
+    for c, r in zip(PROBE_CASES, out["results"]):
+        ks = {len(c["ops"]) - 1} | ({r["first_cold"]["at"]} if r.get("first_cold") else set())
+        d = compare(c, r, *mirror(c["p"], c["W"], 64 - c["p"], r["hashes"], c["ops"], ks))
+        if d is not None and r["ok"] and all(o is not None for o in r["own"]):
+            hs = [synth_hash(o[0], o[1], c["p"], 64 - c["p"]) for o in r["own"]]
+            d = compare(c, r, *mirror(c["p"], c["W"], 64 - c["p"], hs, c["ops"], ks))
+        if d is not None:
+            return "suspect", d[1]
+    return "ok", ""
+
+
+def check_small(run, cases, device_ok=True):
     res = vlib.run_impl("impl_c14.py", {"cases": cases})
     defaults = res["defaults"]
     res = res["results"]
@@ -312,6 +339,8 @@ def check_small(run, cases):
         hist["crossing"] += crossing
         hist["dup_after_cold"] += dup_cold
         hist["dup_at_boundary"] += dup_bnd
+        if not device_ok:       # only the mirror = Coq comparison is made (it needs the tabulated hashes, not the instance)
+            continue
         run.count_case([c["p"], c["W"], c["values"], c["ops"]], crossing and (dup_cold or dup_bnd))
         d = compare(c, r, mlens, mstates)
         if d is not None:
@@ -394,8 +423,9 @@ def check_small(run, cases):
                       impl={"lens": rr["lens"], "flags": rr["flags"], "final": rr["final"], "error": rr["error"]},
                       model=repr(model)[:3000], clause=clause, extra={"checker_verdict": verdict, "oracle": oracle,
                                                                        "original_case_ops": len(c["ops"])})
-    run.oblige("correspondence: len after every prefix + warm set/registers, small instances (%d sequences)" % len(cases),
-               not real_fails, "%d sequences disagree" % len(real_fails))
+    if device_ok:
+        run.oblige("correspondence: len after every prefix + warm set/registers, small instances (%d sequences)" % len(cases),
+                   not real_fails, "%d sequences disagree" % len(real_fails))
     return hist, defaults
 
 
@@ -494,10 +524,56 @@ def walk_big(r, buckets, rhos):
     return viol, kind, st
 
 
-def check_big(run, specs):
-    out = vlib.run_impl("impl_c14.py", {"cases": [], "big": specs}, timeout=3000)
+def judge_pipeline_big(run, spec, r):
+    """compute_cardinalities at real size vs the closed forms (C14_exact / C14_len_set / C14_estimate)."""
+    case = {"pipeline_big": spec}
+    if not r["ok"]:
+        run.violation("counterexample", "C14 real-size pipeline run", case=case, impl=r["error"], clause="compute_cardinalities terminates normally")
+        return False, {}
+    co = r["consts"]
+    m, W = co["m"], co["warmup_size"]
+    hashes = unb64(r["hashes"], "I")
+    msg = None
+    for b, ob in enumerate(r["obs"]):
+        nd = r["cum_distinct"][b]
+        ln, fl = ob["id"]
+        if nd <= min(W, W_REAL) or nd <= W:
+            if fl or ln != nd:
+                msg = "column 'id' after mini-batch %d: %d distinct cells so far (<= warm-up capacity) but len = %d, hll_flag = %s (C14_exact)" % (b, nd, ln, fl)
+        else:
+            z = m - len({h & (m - 1) for h in hashes[:nd]})
+            if not fl or ln not in lc_accept(m, z):
+                msg = ("column 'id' after mini-batch %d: %d distinct cells, %d empty registers, len should be in %s but is %d (hll_flag %s) "
+                       "(C14_estimate / C14_len_set)" % (b, nd, z, sorted(lc_accept(m, z)), ln, fl))
+            elif abs(ln - nd) > 0.02 * nd:
+                msg = "column 'id' after mini-batch %d: %d distinct cells, len = %d: off by more than 2%%" % (b, nd, ln)
+        if msg is None and b == 2 and ln != r["obs"][1]["id"][0]:
+            msg = "column 'id': a mini-batch that only repeats earlier cells changed len from %d to %d (C14_dup_blind)" % (r["obs"][1]["id"][0], ln)
+        kl, kf = ob["k"]
+        if msg is None and (kf or kl != r["cum_small"][b]):
+            msg = "column 'k' after mini-batch %d: %d distinct cells so far but len = %d, hll_flag = %s (C14_exact)" % (b, r["cum_small"][b], kl, kf)
+        if msg:
+            break
+    run.count_case(spec, True)
+    if msg:
+        run.violation("counterexample", "C14 real-size pipeline run (compute_cardinalities -> HyperLogLogWCache) vs closed forms", case=case,
+                      impl={"obs": r["obs"], "cum_distinct": r["cum_distinct"]},
+                      model="closed forms on the set of internal_hash(str(cell)) digests inserted so far", clause=msg)
+        return False, {}
+    return True, {"spec": spec, "distinct_per_batch": r["cum_distinct"], "len_per_batch": [o["id"][0] for o in r["obs"]]}
+
+
+def check_big(run, specs, pipe_big=()):
+    out = vlib.run_impl("impl_c14.py", {"cases": [], "big": specs, "pipeline_big": list(pipe_big)}, timeout=3000)
     stats = []
     ok_all = True
+    pstats = []
+    for spec, r in zip(pipe_big, out.get("pipeline_big", [])):
+        okp, st = judge_pipeline_big(run, spec, r)
+        ok_all = ok_all and okp
+        if st:
+            pstats.append(st)
+    run.cov["real_size_pipeline_runs"] = pstats
     for spec, r in zip(specs, out["big"]):
         case = {"big": spec}
         if not r["ok"]:
@@ -525,7 +601,8 @@ def check_big(run, specs):
             run.violation("counterexample", "C14 real-size run vs closed forms of the model", case=case,
                           impl={"op": viol[0], "checkpoints_near": [c for c in r["checkpoints"] if abs(c[0] - viol[0]) <= 3]},
                           model="closed forms: len = #distinct while <= W; LC(m - #distinct buckets) beyond", clause=viol[1])
-    run.oblige("correspondence: real-size runs vs C14_exact/C14_dup_blind/C14_estimate/C14_regs_max (%d runs)" % len(specs), ok_all)
+    run.oblige("correspondence: real-size runs vs C14_exact/C14_dup_blind/C14_estimate/C14_regs_max (%d class-level runs, %d through compute_cardinalities)"
+               % (len(specs), len(pipe_big)), ok_all)
     return stats
 
 
@@ -624,18 +701,20 @@ def check(run, replay):
         raise vlib.Broken("build:Sketch/HLL.vo", log)
     vlib.standard_proof_phase(run, ["Props/C14.vo"], "Outrank.Props.C14", THEOREMS, allowed=vlib.STD_REAL_AXIOMS)
 
-    big, pipe = [], []
+    big, pipe, pipe_big = [], [], []
     if replay is not None:
         rc = replay["case"]
         if "big" in rc:
             cases, big = [], [rc["big"]]
+        elif "pipeline_big" in rc:
+            cases, pipe_big = [], [rc["pipeline_big"]]
         elif rc.get("pipeline"):
             cases, pipe = [], [rc]
         else:
             cases = [rc]
     else:
         corpus = load_corpus("C14")
-        cases = [c for c in corpus if "big" not in c and not c.get("pipeline")]
+        cases = [c for c in corpus if "big" not in c and not c.get("pipeline") and "pipeline_big" not in c]
         big_corpus = [c["big"] for c in corpus if "big" in c]
         pipe_corpus = [c for c in corpus if c.get("pipeline")]
         n = 300 if run.tier == "quick" else 1500
@@ -653,9 +732,32 @@ def check(run, replay):
                    {"family": "rand", "n": (1 << 20), "seed": s + 2, "dups": 0.05},
                    {"family": "bytes", "n": W_REAL + 5000, "seed": s + 3, "dups": 0.3}]
         big = big_corpus + big
+        pipe_big = [c["pipeline_big"] for c in corpus if "pipeline_big" in c]
+        pipe_big += [{"seed": run.rng.randint(0, 10 ** 6), "before": run.rng.choice([1, 50, 200]), "new": run.rng.choice([2, 120])}
+                     for _ in range(1 if run.tier == "quick" else 3)]
+    # the small-sketch device: usable on this tree?
+    device_ok = True
+    stats = None
+    real_first = None
+    if cases or pipe:
+        verdict, detail = probe_device()
+        if verdict == "suspect":
+            # decided by the real-size families: if they are quiet, the inconsistency comes from poking the instance
+            nv = len(run.violations)
+            stats = check_big(run, big, pipe_big) if (big or pipe_big) else []
+            if len(run.violations) == nv and (big or pipe_big):
+                device_ok = False
+                run.notes.append("small-sketch device unusable on this tree (a fresh instance with p/m/warmup_size/width set by the "
+                                 "harness: %s) while an unpoked instance passes its short history and the real-size families are quiet: "
+                                 "the small-parameter families were skipped; the verdict rests on the real-size families" % detail)
+            else:
+                run.notes.append("small-sketch probe inconsistent (%s) and the real-size families report a violation as well: "
+                                 "the small-parameter families are judged as usual" % detail)
+                real_first = len(run.violations)
+    run.cov["small_sketch_device_usable"] = device_ok
     hist, defaults = ({}, None)
     if cases:
-        hist, defaults = check_small(run, cases)
+        hist, defaults = check_small(run, cases, device_ok)
         okc = (defaults["m"] == 1 << defaults["p"] and defaults["warmup_size"] >= W_REAL and
                defaults["p"] <= 32 < defaults["width"] + defaults["p"])
         run.oblige("constants: m = 2^p, warm-up capacity >= 2^18, width + p > 32 (rank >= 1)", okc, json.dumps(defaults))
@@ -663,8 +765,14 @@ def check(run, replay):
             run.violation("broken-obligation", "C14 constants of a fresh HyperLogLogWCache: %s" % json.dumps(defaults), found_input=False)
         if defaults != {"p": P_REAL, "m": 1 << P_REAL, "warmup_size": W_REAL, "width": 64 - P_REAL}:
             run.notes.append("constants differ from p=19, m=2^19, warmup_size=2^18, width=45: %s" % json.dumps(defaults))
-    stats = check_big(run, big) if big else []
-    run.cov["pipeline_histories"] = check_pipeline(run, pipe) if pipe else {}
+    if stats is None:
+        stats = check_big(run, big, pipe_big) if (big or pipe_big) else []
+    run.cov["pipeline_histories"] = check_pipeline(run, pipe) if (pipe and device_ok) else {}
+    if real_first is not None and len(run.violations) > real_first:
+        # minimal small replays first, the real-size ones after them
+        small_v = [v for v in run.violations[real_first:] if v.get("found_input")]
+        rest = [v for v in run.violations if v not in small_v]
+        run.violations[:] = small_v + rest
     run.cov["input_distribution"] = hist
     run.cov["real_size_runs"] = stats
     run.cov["fresh_instance_constants"] = defaults
